@@ -265,6 +265,9 @@ QUICK_DENY = [
     r"jh_core::wiring::c06_f8_wiring_",                                                 # ~10 min each
     r"blake_core::c04_lemma_round64$", r"blake_core::wiring::c04_put_block512_l[0-3]$",
     r"skein_mode::quick::c05_skein1024_(1|32|64|129|200)_", r"skein_ubi::c05_process_block1024",
+    # Skein-1024 is the same define_hasher! body as Skein-256/512 and each of its harnesses costs 5-7 CPU minutes
+    # (GenericArray<u8, U128> iterator plumbing): quick keeps six boundary shapes, thorough runs all
+    r"skein_mode::quick::c05_skein1024_128_finalize_p(1|64|127)$", r"skein_mode::quick::c08_skein1024_128_update_p(0_n0|0_n128|0_n257|127_n2|128_n129|1_n127)$",
     r"tf1024::c09_encrypt_wiring$", r"tf1024::c10_decrypt_wiring$",                     # the Verus route covers the 1024-bit cores in quick
 ]
 # harnesses known to be slow are started first (longest-first scheduling shortens the critical path)
